@@ -8,7 +8,7 @@ ID=$1; TIER=${2:-quick}; shift; shift; PROPS=${@:-$ID}
 WT=/tmp/seed-$ID; OUT=/tmp/seed-out/$ID
 export GOFLAGS=-mod=mod GOPROXY=off GOSUMDB=off GOTOOLCHAIN=local
 cd $WT || exit 2
-git checkout -q -- . ; cp $OUT/seed_demo_test.go larking/seed_demo_test.go
+git checkout -q -- . ; rm -f larking/seed_demo_test.go; git checkout -q --detach $(git -C /repo rev-parse HEAD); cp $OUT/seed_demo_test.go larking/seed_demo_test.go
 c=$(go test -vet=off -count=1 ./larking/ -run TestSeedDemo 2>&1 | tail -1); echo "demo without change: $c"
 git apply $OUT/patch.diff || { echo "PATCH DOES NOT APPLY"; exit 2; }
 echo "== $ID: $(git diff --stat | tail -1)"
